@@ -238,6 +238,25 @@ def c17_h9(ctx):
             yield ok("C17-H9", key, at(f, sites[met[0]][1]), "%s -> %s" % (var, want if "|" not in var else False))
 
 
+def _nothing_follows(ctx, f, t):
+    """After the call returns, the function only returns: no further call on the transaction, no write to it."""
+    start = t.get("target")
+    if start is None:
+        return False
+    for x in f.reachable(start):
+        blk = f.blocks[x]
+        for st in blk["stmts"]:
+            if st["k"] == "assign" and f.place_str(st["place"]).startswith("self"):
+                return False
+        tt = blk["term"]
+        if tt["k"] == "call":
+            d, r, _ = ctx.prog.callee_of(tt)
+            cal = r or d or ""
+            if cal.startswith("cfdp_daemon::") or cal.startswith("cfdp_core::filestore"):
+                return False
+    return True
+
+
 VERDICT_IGNORED_OK = {
     # by the fault declared, not by the function it is declared in (the size check may be inlined into the EOF arms)
     "FilesizeError": "the EOF arms re-test recv_state / state right after the size check (they never continue on the verdict)",
@@ -295,6 +314,8 @@ def c17_h10(ctx):
                             used = True
             if used:
                 yield ok("C17-H10", key, at(f, t["span"]["line"]), "verdict branched on / handed on")
+            elif _nothing_follows(ctx, f, t):
+                yield ok("C17-H10", key, at(f, t["span"]["line"]), "verdict not looked at, and nothing is done after the call but return")
             elif cond_name in VERDICT_IGNORED_OK:
                 yield ok("C17-H10", key, at(f, t["span"]["line"]), "verdict dropped: " + VERDICT_IGNORED_OK[cond_name])
             else:
